@@ -71,7 +71,7 @@ CLAIMED = {
          'that are not lifted / not mutable / not selected for output come out untouched; "unmapped output variables" is unreachable; with default filters it runs on the caller\'s own '
          'variables and mutability and its writes come back entry by entry; and, on the Linen reference semantics, an identity lift is transparent for every module program, scope path, input and '
          'variables - running the child as a root on the dicts its scope holds and writing what it leaves back under the scope gives the output and the tree of the plain run, and a module '
-         'never changes a value outside its scope path (two simulations over the fuelled interpreter); lift.cond / lift.switch / lift.while_loop on top of pack (Model/LiftCtl.v: every branch traced on its own inner scope and required to agree in structure, the index clamped, carried collections threaded through repack with the structure check of lax.while_loop, condition and body traced once whatever the trip count, publish): a successful switch / cond with variables=True is the selected branch run on the scope itself (same result, entry-wise the same variables) for every function written against the Scope API; a successful while_loop with broadcast_variables=True is the Python loop on the scope in which the body may mutate exactly the carried collections the caller may mutate - same final carry and variables, every trip count, every condition / body that observes variables entry by entry and leaves immutable collections alone (a simulation with the invariant carry ++ broadcast = current scope, then publish = what the loop left), in particular for every program of the statement language the correspondence runs; collections not carried / not mutable come out untouched whatever the body does. Tied to /repo per run: C01 module programs with nn.jit / nn.remat / identity nn.map_variables children (explicit '
+         'never changes a value outside its scope path (two simulations over the fuelled interpreter); lift.cond / lift.switch / lift.while_loop on top of pack (Model/LiftCtl.v: every branch traced on its own inner scope and required to agree in structure, the index clamped, carried collections threaded through repack with the structure check of lax.while_loop, condition and body traced once whatever the trip count, publish): a successful switch / cond with variables=True is the selected branch run on the scope itself (same result, entry-wise the same variables) for every function written against the Scope API; a successful while_loop with broadcast_variables=True is the Python loop on the scope in which the body may mutate exactly the carried collections the caller may mutate - same final carry and variables, every trip count, every condition / body that observes variables entry by entry and leaves immutable collections alone (a simulation with the invariant carry ++ broadcast = current scope, then publish = what the loop left), and conversely - when the Python loop succeeds, the body keeps the structure of the collections it may mutate and its traced first evaluation succeeds, the lifted loop succeeds with the same carry and variables -, in particular for every program of the statement language the correspondence runs; collections not carried / not mutable come out untouched whatever the body does. Tied to /repo per run: C01 module programs with nn.jit / nn.remat / identity nn.map_variables children (explicit '
          'and automatic names) and nn.cond / nn.switch / nn.while_loop statements, init + 1-3 applies with changing mutable filters, static attributes and variable structure; each lifted '
          'run is compared in Coq with Model/Linen.v on the plain equivalent (transformed class names, control flow resolved) and, on the real code, with the program run as plain Python; flax.core.lift.cond / switch / while_loop on real Scopes (flax.core.apply) with random filters, mutability and statement-language bodies, well-formed and not, compared with Model/LiftCtl.v (result, updated collections, whether it raises) and with plain Python control flow.',
     note='Trusted: Coq kernel, vm_compute, harness (plain_equivalent desugaring), jaxcompat, jax.jit / checkpoint / lax control flow. NOT proved: that jax.jit / jax.checkpoint / lax control flow evaluate the traced function like Python '
